@@ -197,9 +197,15 @@ def sub_examples(ctx):
     from ..datasets import ExampleDataset
     names = ["akimotoite"] + ([] if ctx.quick else ["diopside"])
     jobs = [(n, k, ps) for n in names for k in EXAMPLE_KINDS for ps in ((1,) if ctx.quick else (1, 2, 3))]
+    import gc
     for j, (name, kind, pseed) in enumerate(jobs):
-        if j % ctx.nshards != ctx.shard:
+        # diopside needs several GB per calculation (cij keeps three (nt,ntv,nq,np) arrays per task): two shards only
+        if name == "diopside":
+            if ctx.shard >= 2 or j % 2 != ctx.shard:
+                continue
+        elif j % ctx.nshards != ctx.shard:
             continue
+        gc.collect()
         if kind == "volume-order" and ctx.is_excluded("C13/volume-order"):
             continue
         try:
